@@ -222,6 +222,14 @@ CLAIMS["C20"] = dict(
          "memory at 24 GB) and are not decided.",
     technique=E1, design_ref="4 C20, 9.2")
 
+CLAIMS["C06"]["technique"] = E12 + "; symbolic preemption point via the access hook"
+CLAIMS["C06"]["e2"] = True
+CLAIMS["C06"]["note"] += " E2 (mirsmt, back-edge cut = one iteration of the CAS loop) decides ManyToOneRingBuffer::claim for ANY power-of-two capacity 8..2^30 and 64-bit head / tail / head-cache values in both profiles: refusal iff the record does not fit with the true head, exact new tail / index / padding header on acceptance, no store but the head-cache refresh on CAS failure (assumption: tail - head cache < 2^31)."
+CLAIMS["C14"]["text"] += " Dispatch: publication-ready / exclusive-publication-ready, unavailable-counter, client-timeout (quick) and error-response (thorough) events written with literal protocol offsets into a real broadcast buffer travel through CopyBroadcastReceiver, DriverListenerAdapter and ClientConductor::do_work to the matching registration / callback with every field in its own place."
+CLAIMS["C14"]["note"] = "Strings <= 8 bytes without NUL; dispatch of subscription-ready, counter-ready and image events creates handles whose destructor glue does not fit (see C09 note) and is not decided; mmap replaced by a heap LogBuffers stub."
+CLAIMS["C09"]["text"] += " The publication-ready event (through the real broadcast / adapter path) marks exactly the matching registration Registered with the event's fields."
+CLAIMS["C12"]["text"] += " A re-acquired (cached) log mapping is the same mapping and stops its linger countdown; an image announced for an awaiting or unknown subscription is ignored (no callback, nothing mapped, no bookkeeping)."
+
 NOT_YET = "check not built yet in this session (planned in DESIGN.md section 4); no claim is made"
 NA = {}
 
